@@ -51,13 +51,17 @@ func c20sStubAfter(d time.Duration) <-chan time.Time { return c20s.never }
 // open for the tunnel.
 func VerifC20MultiSocket() {
 	zzverif.SetPreempt(zzverif.Param("preempt", 1))
-	extra := 1 + zzverif.Choice("extraSockets", 2)
+	// the number comes from the server's message: also zero and negative values must do no harm
+	extra := []int{1, 2, 0, -1, -3}[zzverif.Choice("extraSockets", 5)]
 	c20s.socks, c20s.closed = nil, nil
 	c20s.primary = &net.UDPConn{}
 	c20s.peer = &net.UDPAddr{Port: 4242}
 	c20s.never = make(chan time.Time)
 	c20s.block = make(chan struct{})
-	c20s.hearOn = zzverif.Choice("heardOn", extra+1)
+	c20s.hearOn = 0
+	if extra > 0 {
+		c20s.hearOn = zzverif.Choice("heardOn", extra+1)
+	}
 	m := &msg.NatHoleResp{Sid: "sid", CandidateAddrs: []string{"1.1.1.1:100"},
 		DetectBehavior: msg.NatHoleDetectBehavior{Role: DetectRoleReceiver, ListenRandomPorts: extra, ReadTimeoutMs: 3000}}
 	conn, raddr, err := MakeHole(context.Background(), c20s.primary, m, []byte("k"))
